@@ -208,7 +208,6 @@ var forbidden = map[string]map[string]bool{
 	"os/signal": {"Notify": true, "NotifyContext": true},
 	"net":       {"Dial": true, "Listen": true, "DialTimeout": true},
 	"context":   {"WithTimeout": true, "WithDeadline": true, "WithTimeoutCause": true, "WithDeadlineCause": true, "AfterFunc": true},
-	"sync":      {"Map": true, "Pool": true},
 }
 
 func (r *rewriter) checkForbidden(se *ast.SelectorExpr) {
